@@ -415,6 +415,65 @@ class SilentPhase(threading.Thread):
         return self.report
 
 
+def shape_phase(ck, b, wd, bud):
+    """The "output shape" family (deterministic): one print of exactly n bytes for n at the stdio-buffer, 64 KiB and MiB boundaries, the
+    same volume as many small prints / as lines, a last print without newline, long and short prints interleaved, a long print followed by
+    a runtime error; all at once through `nano_vm --daemon` on one daemon, some through a generated daemon wrapper; byte for byte and
+    exit status against standalone."""
+    sd = os.path.join(wd, 'shape'); os.makedirs(sd, exist_ok=True)
+    rets = ['0', '7', '3', '255']
+    names = ['single:%d' % n for n in V.SHAPE_LENGTHS] + ['small:73728', 'lines:73728', 'small:1048576', 'noeol:1', 'noeol:8193', 'noeol:73728', 'mix', 'err:73728', 'err:100']
+    wrap_for = set(names) if ck.thorough else {'single:65537', 'single:73728', 'single:1048576', 'noeol:73728', 'mix'}
+    items = []
+    for i, nm in enumerate(names):
+        src = V.gen_shape_program(nm, rets[i % len(rets)])
+        fn = 'shape_%s' % nm.replace(':', '_')
+        nvm, diag = V.compile_nvm(b, src, sd, fn)
+        if nvm is None:
+            raise RuntimeError('nano_virt refused shape program %s: %s' % (nm, diag))
+        w = None
+        if nm in wrap_for:
+            w, wdiag = V.build_daemon_wrapper(b, os.path.join(sd, fn + '.nano'), os.path.join(sd, fn + '_wrapper'), sd)
+        items.append(dict(name=nm, src=src, nvm=nvm, wrapper=w, obs=V.standalone(b, nvm, timeout=120)))
+    bud.new_phase()
+    res = {}
+    d = V.Daemon(b); d.start()
+    try:
+        tmo = bud.timeout()
+
+        def one(key, cmd):
+            res[key] = V.run_cmd(cmd, env=d.env, timeout=tmo)
+        ths = [threading.Thread(target=one, args=((it['name'], 'nano_vm --daemon'), [b.bin('nano_vm'), '--daemon', it['nvm']])) for it in items]
+        ths += [threading.Thread(target=one, args=((it['name'], 'daemon wrapper'), [it['wrapper']])) for it in items if it['wrapper']]
+        [t.start() for t in ths]; [t.join() for t in ths]
+        health = daemon_health(ck, d, 'nano_vmd(plain) output shapes', quick=bool(bud.hangs))
+    finally:
+        d.stop()
+    bad = 0
+    for it in items:
+        for how in ('nano_vm --daemon', 'daemon wrapper'):
+            if (it['name'], how) not in res:
+                continue
+            obs, exp = res[(it['name'], how)], it['obs']
+            ck.count(('shape', it['name'], how), nontrivial=True)
+            if V.client_anomaly(obs) == 'hung':
+                bud.anomaly('hung: shape %s' % it['name'], hung=True)
+            if how == 'daemon wrapper' and obs[:2] == exp[:2] and obs[2].lower() == exp[2].lower():
+                continue
+            if obs != exp:
+                bad += 1
+                fd = next((j for j, (x, y) in enumerate(zip(obs[1], exp[1])) if x != y), min(len(obs[1]), len(exp[1])))
+                ck.fail('c17:shape:%s:%s' % (it['name'], how.replace(' ', '-')),
+                        'output shape %s through %s differs from standalone: exit %s vs %s, stdout %d vs %d bytes (first difference at %d), stderr %r vs %r' % (
+                            it['name'], how, obs[0], exp[0], len(obs[1]), len(exp[1]), fd, obs[2][:80], exp[2][:80]),
+                        dict(case='client', program=it['src'], k=1, shape=it['name'], client=how, engine='nano_vmd(plain)',
+                             expected=dict(exit=exp[0], stdout_len=len(exp[1]), stderr=exp[2].decode('utf-8', 'replace')[:200]),
+                             observed=dict(exit=obs[0], stdout_len=len(obs[1]), stderr=obs[2].decode('utf-8', 'replace')[:200]),
+                             theorem='C17_receiver_limit_is_model / C17_daemon_transparent_partial'))
+    return dict(shapes=len(items), wrappers=sum(1 for it in items if it['wrapper']), differing=bad, health=health,
+                stdout_bytes={it['name']: len(it['obs'][1]) for it in items})
+
+
 def unverified_case(ck, b, progs, bud):
     """Open finding replay: a module that standalone refuses is executed by the daemon (no crash needed)."""
     base = next(p for p in progs.items if p['kind'] == 'lines')
@@ -545,7 +604,7 @@ def report_tsan(ck, reps):
 
 def run(ck):
     b = ck.build('plain')
-    ck.gen(['gen_vmdconsts', 'gen_vmdfacts', 'gen_sharedstate', 'gen_sigsites'])
+    ck.gen(['gen_vmdconsts', 'gen_vmdfacts', 'gen_sharedstate', 'gen_sigsites', 'gen_vmdrecv'])
     ck.prove()
     ref = ck.nvref('c17')
     probe = ck.probe('vmd_probe.c', 'plain')
@@ -577,6 +636,7 @@ def run(ck):
         ck.extra['overlap_max'] = max([r['overlap_max'] for r in rep] + [0])
         if ck.extra['overlap_max'] < 2:
             ck.note('sessions never overlapped (max simultaneous = %d): isolation was not exercised' % ck.extra['overlap_max'])
+        ck.extra['output_shapes'] = shape_phase(ck, b, wd, bud)
         ck.extra['counter_tie'] = counter_tie(ck, b, progs, bud)
         silent.join()
         ck.extra['silent_interval'] = silent.finish(ck)
@@ -634,7 +694,7 @@ def run(ck):
     ck.cov['rule'] = ('rounds of k concurrent clients (k in %s) x arrival jitter {0, 4 ms, 30 ms}; modules drawn with repetition from generated programs of 9 kinds '
                       '(line printers, global state, heap-heavy strings, unterminated last line, runtime error after partial line, arrays, >300 KB output, silent, mixed); '
                       '3/4 real nano_vm --daemon clients, 1/4 raw sockets whose reply is also run through the extracted client loop; overlap measured by STATUS polling; '
-                      'counter tie: m in {1,3,7} sessions held in flight vs STATUS; silent-interval axis: print / compute silently ~7 s (thorough 2, 6, 12 s, calibrated at run time) / print, '
+                      'counter tie: m in {1,3,7} sessions held in flight vs STATUS; output-shape family: single prints of 1 B .. 4 MiB at the 8 KiB / 64 KiB boundaries, the same volume as small prints, no final newline, interleaved, long print + runtime error; silent-interval axis: print / compute silently ~7 s (thorough 2, 6, 12 s, calibrated at run time) / print, '
                       'through nano_vm --daemon and a generated daemon wrapper; '
                       'non-trivial = a client with output in a round of k > 1; distinct = (module, round, client index)' % ks)
     ck.extra['exhaustive'] = False
@@ -654,7 +714,7 @@ def run(ck):
 
 
 def replay(ck, d):
-    b = ck.build('plain'); ck.gen(['gen_vmdconsts', 'gen_vmdfacts', 'gen_sharedstate', 'gen_sigsites'])
+    b = ck.build('plain'); ck.gen(['gen_vmdconsts', 'gen_vmdfacts', 'gen_sharedstate', 'gen_sigsites', 'gen_vmdrecv'])
     kind = d.get('case')
     wd = tempfile.mkdtemp(prefix='c17r_', dir=vlib.BUILD)
     try:
